@@ -18,7 +18,9 @@
 //  * when nothing applies the expression ends where that round of attempts started, and its value is the
 //    value built so far.
 // Bounded: at most 1 operator application in total (2 in the thorough variant), operands nest one level deep (an operand's own operators
-// are postfix ones; prefix / infix operators inside an operand are not applied by the stub).
+// are postfix ones; prefix / infix operators inside an operand are not applied by the stub) - two levels in
+// `pratt_loop_nested_emit_b2_t`, which is what shows an operand parsed at a power other than the one asked for
+// when the operator itself sits inside an operand.
 
 use super::fw::*;
 use crate::input::{self, InputRef};
@@ -33,7 +35,7 @@ type E8 = X<VS>;
 type CP<'p> = input::Checkpoint<'static, 'p, I8, usize>;
 type CU<'p> = input::Cursor<'static, 'p, I8>;
 
-pub const LV: usize = 2;
+pub const LV: usize = 3;
 /// Ghost bookkeeping of the stub table (lives in the harness frame; the stub holds a raw pointer to it).
 pub struct OpGhost {
     pub depth: usize,
@@ -54,6 +56,7 @@ pub struct OpGhost {
     pub postfix_applied: usize,
     pub prefix_applied: usize,
     pub nested_seen: bool,
+    pub deepest: usize,
 }
 impl OpGhost {
     pub fn new() -> Self {
@@ -73,6 +76,7 @@ impl OpGhost {
             postfix_applied: 0,
             prefix_applied: 0,
             nested_seen: false,
+            deepest: 0,
         }
     }
 }
@@ -81,6 +85,9 @@ pub struct AnyOp {
     pub g: *mut OpGhost,
     /// harness bound: operator applications in total
     pub max_apps: usize,
+    /// harness bound: levels of operands an applying prefix / infix operator may open (1 = operands of the
+    /// outermost expression only)
+    pub max_depth: usize,
 }
 impl AnyOp {
     fn g(&self) -> &mut OpGhost {
@@ -143,7 +150,7 @@ impl Operator<'static, I8, u16, E8> for AnyOp {
         g.last_pos[d] = inp.cursor;
         g.last_applied[d] = false;
         g.val[d] = None;
-        let applies = g.apps < self.max_apps && d + 1 < LV && ch::any_bool();
+        let applies = g.apps < self.max_apps && d + 1 < LV && d < self.max_depth && ch::any_bool();
         if !applies || !Self::consume(inp) {
             return Err(());
         }
@@ -188,6 +195,9 @@ impl Operator<'static, I8, u16, E8> for AnyOp {
         let g = self.g();
         if d >= 1 {
             g.nested_seen = true;
+        }
+        if d > g.deepest {
+            g.deepest = d;
         }
         g.attempts += 1;
         g.last_kind[d] = 2;
@@ -236,7 +246,7 @@ impl Operator<'static, I8, u16, E8> for AnyOp {
         g.last_kind[d] = 3;
         g.last_pos[d] = inp.cursor;
         g.last_applied[d] = false;
-        let applies = g.apps < self.max_apps && d + 1 < LV && ch::any_bool();
+        let applies = g.apps < self.max_apps && d + 1 < LV && d < self.max_depth && ch::any_bool();
         if !applies || !Self::consume(inp) {
             return Err(lhs);
         }
@@ -284,14 +294,14 @@ impl Operator<'static, I8, u16, E8> for AnyOp {
 }
 
 /// `atom.pratt(table)` with the stub table: the driver's contract (see the head of this file).
-pub fn h_pratt_loop<M: VMode, const APPS: usize>() {
+pub fn h_pratt_loop<M: VMode, const APPS: usize, const DEPTH: usize>() {
     run::<u8, VS, (), _>(|inp, s0| {
         inp.state.quiet = true;
         let mut ghost = OpGhost::new();
         let mut atom = anyp_multi::<I8, E8>(0, 3);
         atom.progress = true;
         atom.ok_offers = false;
-        let p = atom.pratt(AnyOp { g: &mut ghost, max_apps: APPS });
+        let p = atom.pratt(AnyOp { g: &mut ghost, max_apps: APPS, max_depth: DEPTH });
         let r = p.gov::<M>(inp);
         let s = snap(inp);
         let g = &ghost;
@@ -309,6 +319,9 @@ pub fn h_pratt_loop<M: VMode, const APPS: usize>() {
             vcover!(g.postfix_applied == 1, "pratt loop: a postfix operator applied");
             vcover!(g.apps == 0, "pratt loop: a single atom");
             vcover!(g.nested_seen, "pratt loop: operator attempts inside an operand");
+            if DEPTH >= 2 {
+                vcover!(g.prefix_applied == 1 && g.infix_applied == 1 && g.deepest == 2, "pratt loop: a prefix operator inside the right operand of an infix operator");
+            }
             // the expression ends where the last round of attempts at the outer level started
             vassert!(g.last_kind[0] == 3 && !g.last_applied[0], "C09/pratt_loop.ends-only-after-neither-postfix-nor-infix-applied");
             vassert!(s.pos == g.end_pos0 && s.believed == s.pos, "C09/pratt_loop.ends-where-the-last-round-started-unusable-operator-left-unconsumed");
@@ -351,9 +364,11 @@ impl<M: VMode> VModePeek<M> {
 
 harnesses! {
     #[kani::unwind(3)]
-    pratt_loop_emit_b1 = h_pratt_loop::<Emit, 1>;
+    pratt_loop_emit_b1 = h_pratt_loop::<Emit, 1, 1>;
     #[kani::unwind(3)]
-    pratt_loop_check_b1 = h_pratt_loop::<Check, 1>;
+    pratt_loop_check_b1 = h_pratt_loop::<Check, 1, 1>;
     #[kani::unwind(4)]
-    pratt_loop_emit_b2_t = h_pratt_loop::<Emit, 2>;
+    pratt_loop_emit_b2_t = h_pratt_loop::<Emit, 2, 1>;
+    #[kani::unwind(4)]
+    pratt_loop_nested_emit_b2_t = h_pratt_loop::<Emit, 2, 2>;
 }
